@@ -189,6 +189,9 @@ void DOMAttrNSImpl::release()
 
 DOMNode* DOMAttrNSImpl::rename(const XMLCh* namespaceURI, const XMLCh* name)
 {
+    if (!name || !((DOMDocumentImpl *)fParent.fOwnerDocument)->isXMLName(name))
+        throw DOMException(DOMException::INVALID_CHARACTER_ERR, 0, GetDOMNodeMemoryManager);
+
     DOMElement* el = getOwnerElement();
     if (el)
         el->removeAttributeNode(this);
